@@ -330,6 +330,10 @@ func fnPkgPath(fn *ssa.Function) string {
 		if fn.Pkg != nil {
 			return fn.Pkg.Pkg.Path()
 		}
+		// an instance of a generic function belongs to the package of its origin
+		if o := fn.Origin(); o != nil && o != fn && o.Pkg != nil {
+			return o.Pkg.Pkg.Path()
+		}
 		fn = fn.Parent()
 	}
 	return ""
